@@ -179,6 +179,14 @@ pub fn p_on_ent<'db>(db: &'db dyn Pdb, e: PEnt<'db>) -> u16 {
     peval(db, &prog.on_ent, Some(e))
 }
 
+/// Persisted function whose *result* is an interned handle: a restored memo hands out the handle
+/// it stored, so the identity (slot and generation) of restored interned values matters.
+#[salsa::tracked(persist, returns(copy))]
+pub fn p_intern<'db>(db: &'db dyn Pdb, k: PKey, v: u16) -> PSym<'db> {
+    let _ = k;
+    PSym::new(db, v)
+}
+
 fn pcall(db: &dyn Pdb, n: usize) -> u16 {
     let k = key_of(db, n);
     match db.pctx().prog.nodes[n].kind {
@@ -238,7 +246,11 @@ fn peval<'db>(db: &'db dyn Pdb, e: &Expr, ent: Option<PEnt<'db>>) -> u16 {
         },
         Expr::Intern(_, x) => {
             let v = peval(db, x, ent);
-            PSym::new(db, v).v(db)
+            if v % 2 == 0 {
+                p_intern(db, key_of(db, 0), v).v(db)
+            } else {
+                PSym::new(db, v).v(db)
+            }
         }
         _ => 0,
     }
@@ -483,7 +495,15 @@ pub fn persist_case(o: &Opts, case_seed: u64) -> CaseReport {
             return rep;
         }
         Err(p) => {
-            rep.violations.push(format!("serialization panicked: {}", payload_msg(&*p)));
+            let m = payload_msg(&*p);
+            // looking into the memo table of a deleted (write-locked) tracked struct slot: same
+            // root cause as F15 (serialization takes the structs' read locks)
+            let sig = if m.contains("write lock taken") {
+                " [sig:C26/serialize_stamps_tracked_structs_as_current/stale_fields]"
+            } else {
+                ""
+            };
+            rep.violations.push(format!("serialization panicked: {m}{sig}"));
             return rep;
         }
     };
@@ -568,6 +588,26 @@ pub fn persist_case(o: &Opts, case_seed: u64) -> CaseReport {
         ctx: ctx2,
         inp: r.inp.clone(),
     };
+    // Known finding F14: a restored memo that depends on a persisted function which has not been
+    // called directly in the new database panics during validation. Three quarters of the cases
+    // first call every struct-/value-keyed persisted function once on a key nobody uses, so that
+    // the remaining checks are not masked by it; the rest keep F14 observable.
+    if case_seed % 4 != 0 {
+        let db: &dyn Pdb = &r2.db;
+        let _ = catch_unwind(AssertUnwindSafe(|| {
+            let _ = p_intern(db, key_of(db, 0), 60001).v(db);
+            let first: Option<salsa::Id> = PEnt::ingredient(db)
+                .entries(db.zalsa())
+                .next()
+                .map(|e| e.key().key_index());
+            if let Some(id) = first {
+                let e: PEnt<'_> = salsa::plumbing::FromId::from_id(id);
+                let _ = p_on_ent(db, e);
+            }
+        }));
+        rep.counts.inc("function_ingredients_warmed_up");
+        r2.ctx.log.lock().unwrap().clear();
+    }
     // ---- restored results: identical, and persisted memos verified in the serialization
     // revision are served without executing their bodies
     for n in 0..prog.nodes.len() {
